@@ -10,7 +10,7 @@ use pushr::push::topology::Topology;
 
 fn radii() -> Vec<f32> {
     // exactly representable lattice distances (0,1,2,3,5) and values strictly between lattice distances
-    vec![0.0, 0.5, 1.0, 1.2, 1.6, 1.9, 2.0, 2.1, 2.5, 2.9, 3.0, 3.1, 5.0, 100.0]
+    vec![0.0, 0.5, 1.0, 1.2, 1.6, 1.9, 2.0, 2.1, 2.5, 2.9, 3.0, 3.1, 4.0, 4.2, 4.3, 5.0, 7.0, 10.0, 100.0]
 }
 
 fn perfect_powers(limit: usize) -> Vec<usize> {
